@@ -51,6 +51,16 @@ def check_save(rep, repo):
             (opened[0][2][1:2] == (("const", "wb"),) or dict(opened[0][3]).get("mode") == ("const", "wb"))
         rep.ev("SAVE-file", dumps[0], okf, "the pickle must be written to the named file opened with mode 'wb' "
                "(append or text mode leaves a stale or unreadable file)")
+    elif dumps and dumps[0].name == "pickle.dumps":
+        # pickle.dumps(self) handed to <file>.write(...): the same requirement on the file
+        writes = [e for e in w.events if e.kind == "call" and e.name == "write" and e.args[:1] == (dumps[0].value,)]
+        okf = False
+        if len(writes) == 1 and writes[0].target is not None:
+            opened = [s for s in subterms(writes[0].target) if s[0] == "call" and s[1] == ("builtin", "open")]
+            okf = len(opened) == 1 and opened[0][2][:1] == (("param", fi.params[1]),) and \
+                (opened[0][2][1:2] == (("const", "wb"),) or dict(opened[0][3]).get("mode") == ("const", "wb"))
+        rep.ev("SAVE-file", dumps[0], okf, "the pickle must be written, once, to the named file opened with mode 'wb' "
+               "(append or text mode leaves a stale or unreadable file)")
     ws = write_summaries(repo)
     for e in w.events:
         if e.kind == "store" and shares_model(e.target):
